@@ -120,7 +120,7 @@ def check(rep, an, tier):
                       ("engine=<number> → TypeError", dict(engine=num("engine"), seed=seed_val("int"))),
                       ("seed=<str> → TypeError", dict(engine=none(), seed=strv("seed", "x")))):
         res = an.run(SAMP, kws=dict(P=P, n=intv("n", "NSAMP"), qhull_options=none(), **kw), config=label)
-        rep.check("R-DISPATCH", label, bool(res.events("raise")) and not [r for r in res.events("return") if len(r.path) == 1],
+        rep.check("R-DISPATCH", label, F.raises(res),
                   where=res.fn.loc(), construct=label, entry=entry, config=label)
     R.rule_api(rep, results, entry)
     # --- estimator
